@@ -33,8 +33,9 @@ func numericParamType(t types.Type) bool {
 }
 
 func runC16(cx *Ctx, r *Report) {
-	r.Explanation = "F3/F2/F7/F5. (authority) every rpc whose declared signer is the field `authority` holds the dominating fact keeper.authority == msg.Authority at each of its state-mutating events, on every call chain. (validated-writer) every Set on a params key in consensus code is dominated, in its own function, by Validate() == nil on the very value that is marshalled, so UpdateParams, InitGenesis and migrations all pass through validation. (coverage) for each Params struct and the structs nested in it, every field of a nil-able/signed numeric type (math.Int, LegacyDec, sdk.Coin, sdk.Coins) that consensus code reads outside the validation closure must also be read inside the closure of Validate. (division) every quotient in consensus code whose denominator derives from a params getter is dominated by a non-zero/positivity guard or carries a reviewed obligation whose named guards are re-checked. Decides presence and placement of the checks, not that the validated ranges suffice for all arithmetic."
+	r.Explanation = "F3/F2/F7/F5. (authority) every rpc whose declared signer is the field `authority` holds the dominating fact keeper.authority == msg.Authority at each of its state-mutating events, on every call chain. (validated-writer) every Set on a params key in consensus code is dominated, in its own function, by Validate() == nil on the very value that is marshalled, so UpdateParams, InitGenesis and migrations all pass through validation. (coverage) for each Params struct and the structs nested in it, every field of a nil-able/signed numeric type (math.Int, LegacyDec, sdk.Coin, sdk.Coins) that consensus code reads outside the validation closure must also be read inside the closure of Validate. (division) every quotient in consensus code whose denominator derives from a params getter is dominated by a non-zero/positivity guard or carries a reviewed obligation whose named guards are re-checked. (coin validity) the validation behind every keeper SetParams establishes, on each accepting path, the validity of every coin-typed parameter (IsValid / Validate / ValidateDenom, directly or through the per-field validator): the fee handlers build coins from the stored denom with panicking constructors. Decides presence and placement of the checks, not that the validated ranges suffice for all arithmetic."
 	r.Assumptions = []string{"the SDK verifies that the signer field of MsgUpdateParams signed the transaction", "the x/gov module account address is what the application passes as authority"}
+	cx.coinParamsValidated(r)
 	// ---------------- (1) authority
 	var authEntries []Entry
 	for _, e := range cx.EntriesOf("msg") {
